@@ -118,3 +118,35 @@ def int_max_str_digits(n):
         yield
     finally:
         sys.set_int_max_str_digits(old)
+
+
+def with_modes(inner, lazy=None, warn=None, share_lazy=6, share_warn=5):
+    """Wraps a check's evaluate(ctx, case).  lazy / warn: predicates over cases (or None) saying for which cases the mode
+    is sound on the pinned tree; a fixed, replay-stable share of those cases then runs under oslo_i18n lazy translation /
+    with warnings turned into errors (what `python -W error` does for the process, scoped here to the calls).  A warning
+    the library issues on a path the property covers then surfaces as an exception that is neither the documented
+    result nor the documented error."""
+    import json
+    import zlib
+
+    def digest(case, salt):
+        try:
+            return zlib.crc32((salt + json.dumps(case, sort_keys=True, default=repr)).encode())
+        except Exception:  # noqa
+            return 1
+
+    def evaluate(ctx, case):
+        if not isinstance(case, dict):
+            return inner(ctx, case)
+        use_lazy = lazy is not None and lazy(case) and digest(case, 'lazy') % share_lazy == 0
+        use_warn = warn is not None and warn(case) and digest(case, 'warn') % share_warn == 0
+        with contextlib.ExitStack() as stack:
+            if use_lazy:
+                ctx.clause('under-lazy-translation')
+                stack.enter_context(lazy_i18n())
+            if use_warn:
+                ctx.clause('under-warnings-as-errors')
+                stack.enter_context(warnings_as_errors())
+            return inner(ctx, case)
+    evaluate.__wrapped__ = inner
+    return evaluate
